@@ -598,9 +598,16 @@ def mon_journal(steps, meta):
     wrong = set()       # stamps of configurations NOT in force
     wlabels = {}        # cfg id -> labels of the two write events
     wexpect = []        # (write step, label its line must carry or None for no line) since the last dump
+    xlabels = {}        # cfg id -> labels of the two execution events
+    editors = {}        # cfg id -> configured editor names
+    xexpect = []        # (exec step, label) since the last dump
     for st in steps:
         if st.op == "cfg":
             for t in st.tok[2:]:
+                if t.startswith("ev0=") or t.startswith("ev1="):
+                    xlabels.setdefault(st.tok[1], {})[t[:3]] = None if t[4:] == "-" else unhexs(t[4:])
+                if t.startswith("editors="):
+                    editors[st.tok[1]] = set(unhexs(x) for x in t[8:].split(",") if x)
                 if t.startswith("jpat="):
                     pats[st.tok[1]] = unhexs(t[5:])
                 if t.startswith("ev2=") or t.startswith("ev3="):
@@ -624,11 +631,18 @@ def mon_journal(steps, meta):
                 # (a queue link was created), "not by editor" otherwise; no label, no line
                 queued = any(l.split(" ")[1:2] == ["symlinkat"] for l in st.log)
                 wexpect.append((st, wlabels[inforce].get("ev3" if queued else "ev2"), queued))
+            if st.op == "exec" and st.result == "ok" and inforce in xlabels and inforce in editors and len(st.tok) > 2:
+                # an execution is labelled by the executed file's name alone: one of the configured editors or not -
+                # however often, and by whichever process, it is executed
+                is_ed = unhexs(st.tok[2]).rsplit("/", 1)[-1] in editors[inforce]
+                xexpect.append((st, xlabels[inforce].get("ev1" if is_ed else "ev0"), is_ed, dict(xlabels[inforce])))
             if st.op == "write" and st.result == "ok" and len(st.tok) > 2 and unhexs(st.tok[2]) == CANON_ROOT + "/w/cfg/klunok.lua" and bound in pats:
                 inforce = bound
         if st.dump is None:
             continue
         cur = st.dump
+        if prev is None:
+            wexpect, xexpect = [], []      # (lines written before the first dump cannot be told from what was there)
         if prev is not None:
             newlines = []
             for j in JOURNALS:
@@ -693,7 +707,18 @@ def mon_journal(steps, meta):
                     if lab not in (None, "") and not any(lab in f[:-1] for f in mine):
                         return ("the write '%s' was %s: its journal line must carry the label %r, the journal got %s"
                                 % (wst.line, "queued" if queued else "not queued", lab, ["\t".join(f) for f in mine] or "nothing"))
+                for (xst, lab, is_ed, labs) in xexpect:
+                    xpath, xpid = unhexs(xst.tok[2]), xst.tok[1]
+                    mine = [l.split("\t") for l in newlines if l.split("\t")[-1] == xpath and xpid in l.split("\t")[:-1]]
+                    others = set(v for v in labs.values() if v not in (None, "", lab))
+                    if lab is None and others and any(set(f[:-1]) & others for f in mine):
+                        return ("the execution '%s' (%s) has no label configured, yet the journal got the line %r"
+                                % (xst.line, "an editor" if is_ed else "not an editor", "\t".join(mine[0])))
+                    if lab not in (None, "") and not any(lab in f[:-1] for f in mine):
+                        return ("the execution '%s' is that of %s: its journal line must carry the label %r, the journal got %s"
+                                % (xst.line, "a configured editor" if is_ed else "a program that is no editor", lab, ["\t".join(f) for f in mine] or "nothing"))
             wexpect = []
+            xexpect = []
             stamps, wrong = set(), set()
             if st.tag_same_env and meta.get("journal_counts", True) and not any(o.result in ("error", "crashed", None) for o in ops_between):
                 nw = sum(1 for o in ops_between if o.op == "write")
@@ -1436,12 +1461,27 @@ def mon_position_kept(steps, meta):
 MONITORS["position_kept"] = mon_position_kept
 
 
+def mon_event_fd_kept(steps, meta):
+    """C17 / C20: the descriptor that comes with a notification is borrowed by the handler and closed by the event loop
+    afterwards - exactly once: when handle_open_exec / handle_close_write return it must still be open"""
+    for st in steps:
+        if st.op in ("exec", "write") and any("eventfd-closed-by-handler" in l for l in st.log):
+            return ("the handler closed the notification's descriptor during '%s' (%s): the event loop's close afterwards hits a dead - or by then re-used - descriptor number"
+                    % (st.op, unhexs(st.tok[2])[len(CANON_ROOT):] if len(st.tok) > 2 else "?"))
+    return None
+
+
+MONITORS["event_fd_kept"] = mon_event_fd_kept
+
+
 def mon_no_error(steps, meta):
     """without injected failures and with valid configurations no operation may stop the daemon with an error"""
     if any(st.op == "oracle" and st.tok[1] in ("fail", "crash") for st in steps):
         return None
     if any(st.line.startswith("cfgbind invalid") for st in steps):
         return None
+    if isinstance(meta, dict) and meta.get("errors_expected"):
+        return None     # the scenario puts a stored version where a directory is needed: stopping with an error is right
     blocked = False     # the scenario made the (project) store unusable (stray file): an error is the right answer
     def store_place(p):
         return p in (CANON_ROOT + "/k/projects", CANON_ROOT + "/k/store") or p.startswith(CANON_ROOT + "/k/store/")
